@@ -64,10 +64,12 @@ Print Assumptions C09_gc_order_refuted.
 
 (* Delete x with AutoGC on, x stored: for every iteration order it returns Ok and removes
    exactly [Gone]: the least set containing x, closed under "untagged manifest of the store
-   whose subject (a manifest) was removed" and "untagged node of the store that had
-   predecessors, all of which were removed" -- from the storage, from the graph and from the
-   reference index (so the tags of x go, and the digest references of what is removed);
-   every tag of another node stays. *)
+   whose subject (a manifest) was removed and all of whose holders were removed" and
+   "untagged node of the store that had predecessors, all of which were removed" -- from the
+   storage, from the graph and from the reference index (so the tags of x go, and the digest
+   references of what is removed); every tag of another node stays.  A holder of r is a
+   predecessor that lists r other than as its subject: a referrer does not keep its subject
+   alive, every other link does. *)
 Theorem C09_delete_exact :
   forall succ subject manifest, acyclic succ -> subject_listed succ subject ->
   forall st x, wf st -> autogc st = true -> In x (blobs st) ->
@@ -92,25 +94,27 @@ Theorem C09_delete_queue_terminates :
 Proof. exact delete_terminates_final. Qed.
 Print Assumptions C09_delete_queue_terminates.
 
-(* What the cascade never takes: a tagged node; a node outside the store's graph; and a node
-   taken by the dangling rule has no surviving predecessor.  (partial: for a node taken by the
-   referrer rule the last clause is refuted below.) *)
-Theorem C09_delete_never_partial :
+(* What the cascade never takes: a tagged node; a node outside the store's graph; a node
+   that a surviving node still lists (every predecessor of a removed node, other than the
+   node's own referrers, is removed as well). *)
+Theorem C09_delete_never :
   forall succ subject manifest st x y,
   Gone succ subject manifest st x y -> y <> x ->
   is_tagged st y = false /\ In y (gnodes st) /\
-  ((forall m, subject y = Some m -> ~ Gone succ subject manifest st x m) ->
-   forall p, In p (gnodes st) -> In y (succ p) -> Gone succ subject manifest st x p).
+  (forall p, In p (gnodes st) -> In y (succ p) -> subject p <> Some y ->
+             Gone succ subject manifest st x p).
 Proof. exact delete_never_final. Qed.
-Print Assumptions C09_delete_never_partial.
+Print Assumptions C09_delete_never.
 
-(* known finding delete-referrer-still-linked: the referrer 2 of the deleted manifest 1 is
-   removed although the surviving tagged index 4 lists it *)
+(* Before the repair of the referrer rule: the referrer 2 of the deleted manifest 1 is removed
+   although the surviving tagged index 4 lists it (repaired: 2 and 4 stay) *)
 Theorem C09_delete_surviving_pred_refuted :
   let st := run_w cfg_fixed [OPush 0; OPush 1; OPush 2; OPush 4; OTag 4 0] in
-  let st' := fst (delete succ_w subject_w manifest_w cfg_fixed ord_id st 1) in
-  snd (delete succ_w subject_w manifest_w cfg_fixed ord_id st 1) = Ok /\
-  ~ In 2 (blobs st') /\ In 4 (gnodes st') /\ In 2 (succ_w 4).
+  let st' := fst (delete succ_w subject_w manifest_w cfg_noHold ord_id st 1) in
+  let fx' := fst (delete succ_w subject_w manifest_w cfg_fixed ord_id st 1) in
+  snd (delete succ_w subject_w manifest_w cfg_noHold ord_id st 1) = Ok /\
+  ~ In 2 (blobs st') /\ In 4 (gnodes st') /\ In 2 (succ_w 4) /\ subject_w 4 = None /\
+  blobs fx' = [4; 2; 0].
 Proof. exact delete_referrer_still_linked. Qed.
 Print Assumptions C09_delete_surviving_pred_refuted.
 
@@ -188,9 +192,9 @@ Theorem C09_delete_absent_leaf_refuted :
 Proof. exact delete_absent_leaf_aborts. Qed.
 Print Assumptions C09_delete_absent_leaf_refuted.
 
-(* Why the known finding has no small repair: the obvious candidate -- queue a referrer only
-   when every predecessor of it is already queued -- leaves the referrer chain 1 <- 2 <- 8
-   behind (2 is "held" by its own referrer 8), although nothing else links to 2 or 8 *)
+(* Why the repair distinguishes holders from referrers: the naive variant -- queue a referrer
+   only when every predecessor of it is already queued -- leaves the referrer chain
+   1 <- 2 <- 8 behind (2 is "held" by its own referrer 8), although nothing else links to them *)
 Theorem C09_delete_skip_linked_refuted :
   let st := run_w cfg_fixed [OPush 0; OPush 1; OPush 2; OPush 8] in
   blobs (fst (delete succ_w subject_w manifest_w cfg_skipLinked ord_id st 1)) = [8; 2; 0] /\
